@@ -88,6 +88,10 @@ Definition do_close (s : core) (fd : Z) : core :=
   if ok then emit (set_kern s k1) (TKClose fd) else set_kern s k1.
 
 (* ---- raw events (iv_event_raw_posix.c) ---- *)
+(* iv_event_raw_is_eventfd, negated: an eventfd-backed object has one descriptor for both ends.
+   Post / got_event / unregister decide per object; registration uses the eventfd_in_use flag. *)
+Definition raw_is_pipe (s : core) (j : Z) : bool := negb (rw_wfd s j =? rw_rfd s j).
+
 Definition raw_register (s : core) (j : Z) : res * bool :=      (* bool: failure (-1) *)
   let in_use := efd_raw s in
   let '(s, got, failed) :=
@@ -122,11 +126,11 @@ Definition raw_register (s : core) (j : Z) : res * bool :=      (* bool: failure
 Definition raw_unregister (s : core) (j : Z) : res :=
   bind (fd_unregister s (RAW_KEY j)) (fun s =>
     let s := do_close s (rw_rfd s j) in
-    let s := if efd_raw s =? 0 then do_close s (rw_wfd s j) else s in
+    let s := if raw_is_pipe s j then do_close s (rw_wfd s j) else s in
     R (set_rw s (upd (rw_reg s) j false) (rw_rfd s) (rw_wfd s))).
 
 Definition raw_post (s : core) (j : Z) : core :=
-  let '(k1, _) := if efd_raw s =? 0 then k_write (kern s) (rw_wfd s j) 1 0
+  let '(k1, _) := if raw_is_pipe s j then k_write (kern s) (rw_wfd s j) 1 0
                   else k_write (kern s) (rw_wfd s j) 8 1 in
   set_kern s k1.
 
@@ -322,7 +326,7 @@ Definition run_pending_events (s : core) : res :=
 
 (* iv_event_raw_got_event *)
 Definition raw_got_event (s : core) (j : Z) : res :=
-  let toread := if efd_raw s =? 0 then 1024 else 8 in
+  let toread := if raw_is_pipe s j then 1024 else 8 in
   match k_read (kern s) (rw_rfd s j) toread with
   | (k1, inl n) =>
       if n =? 0 then halt (set_kern s k1) TFatal
